@@ -255,6 +255,101 @@ the ones in the tree now (same functions, same order, same text): a changed span
 loop condition or bound test in ds/zset breaks this obligation. -/
 theorem span_arithmetic_ok : spanStmts = expectedSpanStmts := by decide +kernel
 
+/-- the lines of bptree.go that `Nuts.Model.BPTree` was written from: the comparisons of the descent and of the
+leaf search, the loop headers, offset / limit counters and stop conditions of the leaf-chain scans, the
+capacity tests and split indexes of the insertion -/
+def expectedBptStmts : List (String × String × String) := [
+  ("FindLeaf", "for", "; !curr.isLeaf; "),
+  ("FindLeaf", "for", "; i < curr.KeysNum; "),
+  ("FindLeaf", "if", "compare(key, curr.Keys[i]) >= 0"),
+  ("getAll", "for", "; n != nil; "),
+  ("getAll", "for", "i = j; i < n.KeysNum; i++"),
+  ("getAll", "incdec", "numFound++"),
+  ("findRange", "for", "j = 0; j < n.KeysNum && compare(n.Keys[j], start) < 0; "),
+  ("findRange", "assign", "scanFlag = true"),
+  ("findRange", "for", "; n != nil && scanFlag; "),
+  ("findRange", "for", "i = j; i < n.KeysNum; i++"),
+  ("findRange", "if", "compare(n.Keys[i], end) > 0"),
+  ("findRange", "assign", "scanFlag = false"),
+  ("findRange", "incdec", "numFound++"),
+  ("PrefixScan", "for", "j = 0; j < n.KeysNum && compare(n.Keys[j], prefix) < 0; "),
+  ("PrefixScan", "assign", "scanFlag = true"),
+  ("PrefixScan", "assign", "numFound = 0"),
+  ("PrefixScan", "assign", "coff := 0"),
+  ("PrefixScan", "for", "; n != nil && scanFlag; "),
+  ("PrefixScan", "for", "i = j; i < n.KeysNum; i++"),
+  ("PrefixScan", "if", "!bytes.HasPrefix(n.Keys[i], prefix)"),
+  ("PrefixScan", "assign", "scanFlag = false"),
+  ("PrefixScan", "if", "coff < offsetNum"),
+  ("PrefixScan", "incdec", "coff++"),
+  ("PrefixScan", "incdec", "numFound++"),
+  ("PrefixScan", "if", "limitNum > 0 && numFound == limitNum"),
+  ("PrefixScan", "assign", "scanFlag = false"),
+  ("PrefixScan", "assign", "off = coff"),
+  ("PrefixSearchScan", "for", "j = 0; j < n.KeysNum && compare(n.Keys[j], prefix) < 0; "),
+  ("PrefixSearchScan", "assign", "scanFlag = true"),
+  ("PrefixSearchScan", "assign", "numFound = 0"),
+  ("PrefixSearchScan", "assign", "coff := 0"),
+  ("PrefixSearchScan", "for", "; n != nil && scanFlag; "),
+  ("PrefixSearchScan", "for", "i = j; i < n.KeysNum; i++"),
+  ("PrefixSearchScan", "if", "!bytes.HasPrefix(n.Keys[i], prefix)"),
+  ("PrefixSearchScan", "assign", "scanFlag = false"),
+  ("PrefixSearchScan", "if", "coff < offsetNum"),
+  ("PrefixSearchScan", "incdec", "coff++"),
+  ("PrefixSearchScan", "incdec", "numFound++"),
+  ("PrefixSearchScan", "if", "limitNum > 0 && numFound == limitNum"),
+  ("PrefixSearchScan", "assign", "scanFlag = false"),
+  ("PrefixSearchScan", "assign", "off = coff"),
+  ("Find", "for", "i = 0; i < leaf.KeysNum; i++"),
+  ("Find", "if", "compare(key, leaf.Keys[i]) == 0"),
+  ("Find", "if", "i == leaf.KeysNum"),
+  ("startNewTree", "assign", "t.root.KeysNum = 1"),
+  ("Insert", "if", "leaf.KeysNum < order-1"),
+  ("getSplitIndex", "return", "return length / 2"),
+  ("getSplitIndex", "return", "return length/2 + 1"),
+  ("splitLeaf", "assign", "tmpKeys := make([][]byte, order)"),
+  ("splitLeaf", "assign", "tmpPointers := make([]interface{}, order)"),
+  ("splitLeaf", "for", "; i < order-1; "),
+  ("splitLeaf", "if", "compare(leaf.Keys[i], key) < 0"),
+  ("splitLeaf", "for", "j = 0; j < leaf.KeysNum; j++"),
+  ("splitLeaf", "assign", "splitIndex := getSplitIndex(order)"),
+  ("splitLeaf", "assign", "leaf.KeysNum = 0"),
+  ("splitLeaf", "for", "i = 0; i < splitIndex; i++"),
+  ("splitLeaf", "incdec", "leaf.KeysNum++"),
+  ("splitLeaf", "for", "i = splitIndex; i < order; i++"),
+  ("splitLeaf", "assign", "i = splitIndex"),
+  ("splitLeaf", "incdec", "newLeaf.KeysNum++"),
+  ("splitLeaf", "if", "leaf.pointers[order-1] != nil"),
+  ("splitLeaf", "assign", "newLeaf.pointers[order-1] = leaf.pointers[order-1]"),
+  ("splitLeaf", "assign", "leaf.pointers[order-1] = newLeaf"),
+  ("insertIntoNewRoot", "incdec", "t.root.KeysNum++"),
+  ("insertIntoNode", "for", "i := node.KeysNum; i > leftIndex; i--"),
+  ("insertIntoNode", "assign", "i := node.KeysNum"),
+  ("insertIntoNode", "incdec", "node.KeysNum++"),
+  ("insertIntoParent", "for", "; leftIndex <= left.parent.KeysNum; "),
+  ("insertIntoParent", "if", "left.parent.KeysNum < order-1"),
+  ("splitParent", "assign", "tmpKeys := make([][]byte, order)"),
+  ("splitParent", "assign", "tmpPointers := make([]interface{}, order+1)"),
+  ("splitParent", "for", "i = 0; i < node.KeysNum; i++"),
+  ("splitParent", "for", "i = 0; i < node.KeysNum+1; i++"),
+  ("splitParent", "assign", "splitIndex := getSplitIndex(order - 1)"),
+  ("splitParent", "assign", "node.KeysNum = 0"),
+  ("splitParent", "for", "i = 0; i < splitIndex; i++"),
+  ("splitParent", "incdec", "node.KeysNum++"),
+  ("splitParent", "for", "; i < order; i++"),
+  ("splitParent", "incdec", "newNode.KeysNum++"),
+  ("splitParent", "for", "i = 0; i <= newNode.KeysNum; i++"),
+  ("splitParent", "assign", "newKey := tmpKeys[splitIndex]"),
+  ("insertIntoLeaf", "for", "; i < leaf.KeysNum; "),
+  ("insertIntoLeaf", "if", "compare(key, leaf.Keys[i]) > 0"),
+  ("insertIntoLeaf", "for", "j := leaf.KeysNum; j > i; j--"),
+  ("insertIntoLeaf", "assign", "j := leaf.KeysNum"),
+  ("insertIntoLeaf", "incdec", "leaf.KeysNum++")]
+
+/-- **the B+ tree's comparisons, scan loops and split rules, regenerated.** The source lines listed above are
+the ones in the tree now (same functions, same order, same text). -/
+theorem bpt_statements_ok : bptStmts = expectedBptStmts := by decide +kernel
+
 /-- **`Backup` is one read transaction.** Regenerated from db.go: the body of `DB.Backup` outside the function
 literal does nothing but call `db.View` (no file-system call, no other nutsdb call, no field of `*DB`), and the
 literal handed to `View` calls `filesystem.CopyDir` and nothing else — so every byte Backup reads from the
